@@ -8,6 +8,9 @@ from ..pyfront import (find_def, find_all, match, walk_local, methods_of, dotted
 from ..flowq import (iter_polarity, resolve_local, loops_over, pred_of,
                      witness_path, nodes_with, any_pred, reaching_defs, def_value)
 from ..cfg import cfg_of, header_expr
+from ..sympath import summaries, normal
+from ..pyfront import inlined
+from .sem import nt
 from ..peval import Interp, Opaque, outcome, Raised
 from ..ceval import CInterp, Sym
 from ..cfront import ccfg, show, node_calls
@@ -37,42 +40,81 @@ def filters_on_time_dependent_predicate(func):
 
 
 def memo_sites(mod):
-    """functions with the shape: x = T.get(k)/T[k]; miss -> construct; T[k] = x"""
+    """functions that store into a table they also read under the same key
+    (over path summaries: `T.get(k)` / `T[k]` read and `T[k] = v` store)"""
     out = []
     for f in ast.walk(mod):
         if not isinstance(f, FUNC):
             continue
-        for st in walk_local(f):
-            if isinstance(st, ast.Assign) and isinstance(st.targets[0], ast.Subscript) \
-                    and isinstance(st.value, ast.Name):
-                tbl = st.targets[0].value
-                key = st.targets[0].slice
-                reads = find_all(f, '%s.get(%s)' % (norm_src(tbl), norm_src(key))) + \
-                    find_all(f, '%s[%s]' % (norm_src(tbl), norm_src(key)))
-                reads = [r for r, _ in reads if r is not st.targets[0]]
-                if reads and isinstance(tbl, (ast.Name, ast.Attribute)):
-                    out.append((f, norm_src(tbl), st))
+        try:
+            ss = normal(summaries(inlined(f)))
+        except AnalysisError:
+            continue
+        for ps in ss:
+            for e in ps.stores():
+                if not isinstance(e.r, ast.Subscript) or \
+                        not isinstance(e.r.value, (ast.Name, ast.Attribute)):
+                    continue
+                tbl, key = nt(e.r.value), nt(e.r.slice)
+                reads = [c for c in ps.events if c.kind == 'call' and
+                         nt(c.r) == '%s.get(%s)' % (tbl, key)]
+                if reads and (qualname(f), tbl) not in [(q, t) for q, t, _ in out]:
+                    out.append((qualname(f), tbl, f))
     return out
 
 
+def _calls_named(func, attr):
+    out = []
+    for ps in normal(summaries(func)):
+        out += [e for e in ps.events if e.kind == 'call' and
+                isinstance(e.r.func, ast.Attribute) and e.r.func.attr == attr]
+    return out
+
+
+def changed_drops_entry(ch):
+    """ProvidesClass.changed over path summaries: super().changed is always
+    called; the memo entry under self.__args is deleted unless the change is
+    the object's own construction or the entry is not this object."""
+    OWN = ('originally_changed is self', 'self is originally_changed')
+    GET = 'InstanceDeclarations.get(self.__args)'
+    ISME = ('%s is self' % GET, 'self is %s' % GET)
+    probs = []
+    dropping = 0
+    for ps in normal(summaries(ch)):
+        if not [e for e in ps.events if e.kind == 'call' and
+                nt(e.r) == 'super().changed(originally_changed)']:
+            probs.append('a path does not delegate to super().changed')
+        dels = [e for e in ps.dels() if nt(e.r) == 'InstanceDeclarations[self.__args]'] + \
+            [e for e in ps.events if e.kind == 'call' and
+             nt(e.r).startswith('InstanceDeclarations.pop(self.__args')]
+        own = [ps.facts.get(c) for c in OWN if c in ps.facts]
+        isme = [ps.facts.get(c) for c in ISME if c in ps.facts]
+        other = [c for c, t, p in ps.order if c not in OWN + ISME
+                 and not c.startswith('EXCEPT(')]
+        if dels:
+            dropping += 1
+            continue
+        if True in own or False in isme:
+            continue
+        probs.append('the entry survives a change (path facts %s)'
+                     % ([(c, t) for c, t, p in ps.order][:3]))
+    if not dropping:
+        probs.append('no path deletes the memo entry')
+    return sorted(set(probs))
+
+
 def r01_1(rep, mod):
+    from . import picklesem
     sites = memo_sites(mod)
-    names = sorted({(qualname(f), t) for f, t, st in sites})
+    names = sorted({(q, t) for q, t, f in sites})
     rep.note('memo sites in declarations.py: %s' % names)
     prov = [x for x in sites if x[1] == 'InstanceDeclarations']
     rep.require(bool(prov), 'memo site InstanceDeclarations vanished')
-    f, tbl, st = prov[0]
-    # what is memoized: ProvidesClass(*interfaces); does its construction
-    # depend on a time-dependent predicate?
-    pc = find_def(mod, 'Provides')         # the class (first definition)
-    pcls = None
-    for n in mod.body:
-        if isinstance(n, ast.ClassDef) and n.name == 'Provides':
-            pcls = n
-    rep.require(pcls is not None, 'class Provides (ProvidesClass) vanished')
+    f = picklesem.provides_function(mod)
+    pcls = picklesem.provides_class(mod)
     init = methods_of(pcls)['__init__']
     helper = find_def(mod, 'Declaration._add_interfaces_to_cls')
-    uses_helper = bool(find_all(init, 'self._add_interfaces_to_cls($$a)'))
+    uses_helper = bool(_calls_named(init, '_add_interfaces_to_cls'))
     preds = filters_on_time_dependent_predicate(helper) if uses_helper else []
     preds += filters_on_time_dependent_predicate(init)
     if not preds:
@@ -83,45 +125,31 @@ def r01_1(rep, mod):
         return
     # accepted repairs
     # (a) validation on a hit
-    hit_validates = bool(find_all(f, '$s._add_interfaces_to_cls($$a)')) or \
-        bool(find_all(f, 'Declaration._add_interfaces_to_cls($$a)'))
+    hit_validates = bool(_calls_named(f, '_add_interfaces_to_cls'))
     # (b) entry dropped on the subject's changed() path
     ch = methods_of(pcls).get('changed')
     dropped = False
     dd = 'ProvidesClass has no changed() override'
     if ch is not None:
-        cfg = cfg_of(ch)
-        dels = find_all(ch, 'del InstanceDeclarations[self.__args]', 'exec') + \
-            [(c, e) for c, e in find_all(ch, 'InstanceDeclarations.pop(self.__args, $$d)')]
-        okdel = bool(dels)
-        # the deletion may only be skipped for the object's own construction /
-        # when the entry is not this object
-        guards = []
-        for d, _ in dels:
-            p = d if isinstance(d, ast.stmt) else shared.stmt_of(d)
-            while p is not ch:
-                if isinstance(p.parent, ast.If) and p in p.parent.body:
-                    guards.append(p.parent.test)
-                p = p.parent
-        allowed = ('originally_changed is not self',
-                   'InstanceDeclarations.get(self.__args) is self',
-                   'originally_changed is not self and InstanceDeclarations.get(self.__args) is self',
-                   'InstanceDeclarations.get(self.__args) is self and originally_changed is not self')
-        okguard = all(norm_src(g) in allowed for g in guards)
-        oksuper = cfg.must_pass_after(cfg.entry, pred_of('super().changed(originally_changed)'))
-        dropped = okdel and okguard and oksuper
-        dd = ('ProvidesClass.changed drops its memo entry (%s) unless it is '
-              'its own construction / not the entry (guards %s: %s) and always '
-              'delegates to super().changed (%s)'
-              % (okdel, [norm_src(g) for g in guards], okguard, oksuper))
+        dp = changed_drops_entry(ch)
+        dropped = not dp
+        dd = ('ProvidesClass.changed always delegates to super().changed and '
+              'drops its memo entry unless the change is its own construction '
+              'or the entry is another object') if dropped else {'problems': dp[:3]}
     # the subject is among the bases (so its changed() reaches the memoized object)
-    subj = bool(find_all(helper, 'return interfaces + (implemented_by_cls,)', 'exec')) and \
-        match('implementedBy(cls)', resolve_local(
-            helper, ast.Name(id='implemented_by_cls', ctx=ast.Load()))) is not None
+    rets = [ps.ret for ps in normal(summaries(helper))]
+    subj = bool(rets) and all(
+        r is not None and picklesem.tuple_elems(r)[-1:] == ['implementedBy(cls)']
+        for r in rets)
     # key of the memo entry = the constructor arguments recorded on the object
-    keyok = bool(find_all(f, 'InstanceDeclarations[interfaces] = spec', 'exec')) and \
-        bool(find_all(f, 'spec = ProvidesClass(*interfaces)', 'exec')) and \
-        bool(find_all(init, 'self.__args = (cls,) + interfaces', 'exec'))
+    fp = picklesem.provides_factory_problems(f)
+    cap = []
+    for ps in normal(summaries(init)):
+        sts = [e for e in ps.stores() if isinstance(e.r, ast.Attribute)
+               and e.r.attr.endswith('__args')]
+        cap.append(len(sts) == 1 and
+                   picklesem.tuple_elems(sts[0].val) == ['cls', '*interfaces'])
+    keyok = not fp and bool(cap) and all(cap)
     ok = hit_validates or (dropped and subj and keyok)
     rep.check('R01.1', 'declarations.Provides', ok,
               {'memo': 'InstanceDeclarations keyed by (cls, *interfaces)',
@@ -129,7 +157,7 @@ def r01_1(rep, mod):
                'hit_path_revalidates': hit_validates,
                'dropped_on_change': dd,
                'class_spec_is_a_base_of_the_memoized_object': subj,
-               'memo_key_equals_recorded_args': keyok,
+               'memo_key_equals_recorded_args': keyok if keyok else fp[:2] + [cap],
                'why': 'the interfaces left out as redundant are decided when the '
                       'shared object is created; a declaration made after the '
                       'class was narrowed must not get that old object'},
@@ -137,16 +165,19 @@ def r01_1(rep, mod):
     # the other memo sites of this module
     sup = find_def(mod, '_implementedBy_super')
     ic = find_def(mod, 'Implements.changed')
+    drops = all(any(nt(e.r) == 'self._super_cache' for e in ps.dels())
+                or ps.facts.get('EXCEPT(AttributeError)') is True
+                for ps in normal(summaries(ic))) and any(
+        any(nt(e.r) == 'self._super_cache' for e in ps.dels())
+        for ps in normal(summaries(ic)))
     rep.check('R01.1', 'declarations._implementedBy_super',
-              bool(find_all(ic, 'del self._super_cache', 'exec')) and
-              not filters_on_time_dependent_predicate(sup),
+              drops and not filters_on_time_dependent_predicate(sup),
               '_super_cache holds specs built from live, unfiltered bases and is '
               'dropped by Implements.changed', construct='memo:_super_cache',
               node=sup)
     ib = find_def(mod, 'implementedBy')
     rep.check('R01.1', 'declarations.implementedBy',
-              bool(find_all(ib, 'BuiltinImplementationSpecifications[cls] = spec', 'exec'))
-              and bool(find_all(ib, 'BuiltinImplementationSpecifications.get(cls)')),
+              ('implementedBy', 'BuiltinImplementationSpecifications') in names,
               'BuiltinImplementationSpecifications memoizes the live class '
               'specification itself (recomputed through its own __bases__ stores)',
               construct='memo:Builtin', node=ib)
@@ -362,124 +393,19 @@ def shared_no_mutate(rep, mod):
                               'declaration)' % (norm_src(st).split('\n')[0][:60], why),
                               construct='store:%s.%s' % (norm_src(recv), t.attr),
                               node=st)
-    rep.require(n >= 9, 'R01.3: only %d stores found' % n)
+    rep.require_soft(n >= 9, 'R01.3: only %d stores found' % n)
 
 
 def class_protocol(rep, mod):
     from . import declsem
     declsem.class_ordered(rep, mod, 'R01.4', 'R01.5')
-    h = find_def(mod, 'Declaration._add_interfaces_to_cls')
-    d = [n.value for n in walk_local(h) if isinstance(n, ast.Assign)
-         and isinstance(n.targets[0], ast.Name) and n.targets[0].id == 'interfaces']
-    ok = bool(d) and match(
-        'tuple([$i for $i in interfaces if not implemented_by_cls.isOrExtends($i)])',
-        d[0]) is not None
-    rep.check('R01.5', 'Declaration._add_interfaces_to_cls', ok,
-              'instance declarations drop exactly what the class already '
-              'implies', construct='elide:instance', node=h)
-    # classImplementsOnly resets before delegating
-    f = find_def(mod, 'classImplementsOnly')
-    cfg = cfg_of(f)
-    call = [n for n in cfg.nodes if n.ast is not None and header_expr(n) is not None and
-            find_all(header_expr(n), '_classImplements_ordered(spec, interfaces, ())')]
-    ok = len(call) == 1
-    if ok:
-        for p in ('spec.declared = ()', 'spec.inherit = None', 'spec.__bases__ = ()'):
-            ok = ok and cfg.dominated_by(call[0], pred_of(p, 'exec'))
-        sp = resolve_local(f, ast.Name(id='spec', ctx=ast.Load()))
-        ok = ok and match('implementedBy(cls)', sp) is not None
-    rep.check('R01.4', 'declarations.classImplementsOnly', ok,
-              'clears declared, inherit and __bases__ of the class\'s own '
-              'specification before re-declaring (nothing inherited survives, '
-              'old bases cannot elide new declarations)', construct='only-reset',
-              node=f)
-    f = find_def(mod, 'classImplements')
-    okc = bool(find_all(f, '_classImplements_ordered(spec, tuple(before), tuple(after))'))
-    lps = [n for n in f.body if isinstance(n, ast.For)]
-    if okc and lps:
-        lp = lps[0]
-        inner = [n for n in lp.body if isinstance(n, ast.For)]
-        okc = len(inner) == 1 and match('spec.declared', inner[0].iter) is not None and \
-            bool(find_all(inner[0], '%s.extends(%s)' % (lp.target.id, inner[0].target.id))) \
-            and bool(find_all(inner[0], 'before.append(%s)' % lp.target.id, 'exec')) \
-            and any(find_all(s, 'after.append(%s)' % lp.target.id, 'exec')
-                    for s in inner[0].orelse)
-    rep.check('R01.4', 'declarations.classImplements', okc,
-              'new interfaces extending an already declared one go in front, '
-              'the others at the end; then the ordered helper runs',
-              construct='classify', node=f)
-    f = find_def(mod, 'classImplementsFirst')
-    rep.check('R01.4', 'declarations.classImplementsFirst',
-              bool(find_all(f, '_classImplements_ordered(spec, (iface,), ())')),
-              'declares the interface in front', construct='first', node=f)
-    # decorators dispatch
-    imp = find_def(mod, 'implementer.__call__')
-    g = [n for n in imp.body if isinstance(n, ast.If)]
-    ok = bool(g) and match('isinstance(ob, type)', g[0].test) is not None and \
-        bool(find_all(g[0], 'classImplements(ob, *self.interfaces)'))
-    rep.check('R01.4', 'declarations.implementer.__call__', ok,
-              'every class (any metaclass: isinstance(ob, type)) goes through '
-              'classImplements, which keeps inheritance and earlier '
-              'declarations: `%s`' % (norm_src(g[0].test) if g else 'missing'),
-              construct='class-branch', node=imp)
-    io = find_def(mod, 'implementer_only.__call__')
-    rep.check('R01.4', 'declarations.implementer_only.__call__',
-              bool(find_all(io, 'classImplementsOnly(ob, *self.interfaces)')),
-              'implementer_only -> classImplementsOnly', construct='only', node=io)
+    declsem.class_forms(rep, mod, 'R01.4', 'R01.5')
 
 
 def install(rep, mod):
-    f = find_def(mod, 'implementedBy')
-    cfg = cfg_of(f)
-    ok1 = bool(find_all(f, 'spec = Implements.named(spec_name, *[implementedBy($c) for $c in bases])', 'exec'))
-    ok2 = bool(find_all(f, 'spec.inherit = cls', 'exec'))
-    bs = [n for n in walk_local(f) if isinstance(n, ast.Assign)
-          and match('bases = cls.__bases__', n, 'exec') is not None]
-    rep.check('R01.6', 'declarations.implementedBy', ok1 and ok2 and bool(bs),
-              'a new class specification inherits the specifications of '
-              'cls.__bases__ in order and records inherit = cls',
-              construct='create', node=f)
-    st = find_all(f, 'cls.__implemented__ = spec', 'exec')
-    okpb = bool(find_all(f, "cls.__providedBy__ = objectSpecificationDescriptor", 'exec'))
-    okcp = bool(find_all(f, 'cls.__provides__ = ClassProvides($$a)', 'exec'))
-    okb = bool(find_all(f, 'BuiltinImplementationSpecifications[cls] = spec', 'exec'))
-    rep.check('R01.6', 'declarations.implementedBy',
-              len(st) == 1 and okpb and okcp and okb,
-              'the new specification is installed as cls.__implemented__ with '
-              'the __providedBy__/__provides__ descriptors, or registered for '
-              'builtins (%s/%s/%s/%s)' % (len(st) == 1, okpb, okcp, okb),
-              construct='install', node=f)
-    # lookups return the installed object
-    rets = [norm_src(r.value) for r in walk_local(f) if isinstance(r, ast.Return)]
-    rep.check('R01.6', 'declarations.implementedBy',
-              rets.count('spec') >= 3 and '_empty' in rets,
-              'returns the class\'s own live specification: %s' % rets,
-              construct='returns', node=f)
-    d = find_def(mod, 'directlyProvides')
-    okt = False
-    for n in walk_local(d):
-        if isinstance(n, ast.If) and match('issubclass(cls, type)', n.test) is not None:
-            a = any(find_all(s, 'object.__provides__ = ClassProvides(object, cls, *interfaces)', 'exec')
-                    for s in n.body)
-            b = any(find_all(s, 'object.__provides__ = Provides(cls, *interfaces)', 'exec') or
-                    find_all(s, 'provides = object.__provides__ = Provides(cls, *interfaces)', 'exec')
-                    for s in n.orelse)
-            okt = a and b
-    nm = [n for n in walk_local(d) if isinstance(n, ast.Assign)
-          and match('interfaces = _normalizeargs(interfaces)', n, 'exec') is not None]
-    okn = len(nm) == 1 and nm[0] in d.body
-    rep.check('R01.7', 'declarations.directlyProvides', okt and okn,
-              'classes get ClassProvides(object, cls, ...), instances '
-              'Provides(cls, ...); arguments normalised once for both branches '
-              '(%s/%s)' % (okt, okn), construct='dispatch', node=d)
-    os_ = find_def(mod, 'ObjectSpecificationDescriptor.__get__')
-    rets = [norm_src(r.value) for r in walk_local(os_) if isinstance(r, ast.Return)]
-    rep.check('R01.7', 'ObjectSpecificationDescriptor.__get__',
-              sorted(rets) == sorted(['getObjectSpecification(cls)', 'inst.__provides__',
-                                      'implementedBy(cls)']),
-              '__providedBy__: class access -> the class\'s own spec; instance '
-              '-> its __provides__ else implementedBy(cls): %s' % rets,
-              construct='descriptor', node=os_)
+    from . import declsem
+    declsem.implementedby_install(rep, mod, 'R01.6')
+    declsem.directly_provides_dispatch(rep, mod, 'R01.7')
 
 
 def run(rep):
@@ -525,10 +451,4 @@ def run(rep):
     declsem.decl_sub(rep, mod, 'R01.8')
     declsem.provides_users(rep, mod, 'R01.7')
     cside.sb_queries(rep, 'R01.7', only='decl')
-    sup = find_def(mod, '_implementedBy_super')
-    p = shared.params(sup)[0]
-    owner = resolve_local(sup, ast.Name(id='implemented_by_self', ctx=ast.Load()))
-    rep.check('R01.8', 'declarations._implementedBy_super',
-              match('implementedBy(%s.__self_class__)' % p, owner) is not None,
-              'super-spec cache owner: %s' % norm_src(owner), construct='super-cache',
-              node=sup)
+    declsem.super_cache_owner(rep, mod, 'R01.8')
